@@ -416,6 +416,13 @@ func (s *Sys) subMask(c []int) *ecs.Mask {
 	return &m
 }
 
+// InstallRestrictedPrimary installs a restricted recording listener on the primary world (events go to the main list).
+func (s *Sys) InstallRestrictedPrimary(sub Sub, chaos bool) {
+	s.chaos = chaos
+	s.lis = &recListener{s: s, subs: event.Subscription(sub.S), comp: s.subMask(sub.C), sink: -1}
+	s.W.SetListener(s.lis)
+}
+
 // InstallRestricted installs one restricted recording listener (events go to Subs[0]).
 func (s *Sys) InstallRestricted(sub Sub) {
 	s.Subs = [][]Ev{nil}
@@ -532,6 +539,11 @@ func makePtrValue(tp reflect.Type, c uint64) interface{} {
 		d.A[0].N, d.A[0].P = c, cp
 		d.A[1].N, d.A[1].P = c+1, cp
 		return d
+	case ptrTypes[4]:
+		if c == 0 {
+			return &PtrE{}
+		}
+		return &PtrE{N: c, U: unsafe.Pointer(hookedCanary(c))}
 	case ptrRelType:
 		if c == 0 {
 			return &PtrRel{}
@@ -594,6 +606,13 @@ func readPtrValue(tp reflect.Type, p unsafe.Pointer) (c uint64, ok bool) {
 			return c, false
 		}
 		return c, true
+	case ptrTypes[4]:
+		v := (*PtrE)(p)
+		c, ok := chk((*Canary)(v.U), nil, false, "", false, nil, false)
+		if ok && v.N != c {
+			return c, false
+		}
+		return c, ok
 	case ptrRelType:
 		v := (*PtrRel)(p)
 		return chk(v.P, nil, false, "", false, nil, false)
